@@ -134,6 +134,15 @@ MockFlagged(m) == \E i \in 1..Len(ParseFrames(MockBody(m)).frames) : ParseFrames
 MockFramesOK(m) == ParseFrames(MockBody(m)).why = "clean" /\ \A i \in 1..Len(ParseFrames(MockBody(m)).frames) : ParseFrames(MockBody(m)).frames[i].flag = 0
 MockHeadCode(m) == IF HasName(m.headers, "grpc-status") THEN CodeOf(Values(m.headers, "grpc-status")[1]) ELSE -1
 MockTrailCode(m) == IF m.has_trailers /\ HasName(m.trailers, "grpc-status") THEN CodeOf(Values(m.trailers, "grpc-status")[1]) ELSE -1
+\* responses of a peer that attaches custom metadata to the headers (m.hmeta) and to the trailers (m.tmeta; disjoint names), single and
+\* repeated, ASCII and binary: a unary call's Response carries both, a stream's Response the first and its trailers() the second, an
+\* error status read from the trailers the second; and an error of any other origin never carries some of an entry's values without the rest
+MockMetaClauses(stim, cli, hc, tc) ==
+  LET m == stim.mock  all == m.hmeta \o m.tmeta IN
+  << <<"C08.InitialMetadataReceived", cli.ok => MetadataReceived(cli.init, m.hmeta)>>,
+     <<"C08.TrailerMetadataReceived", cli.ok => MetadataReceived(IF stim.shape = "unary" THEN cli.init ELSE cli.trailers, m.tmeta)>>,
+     <<"C08.ErrorMetadataReceived", (~cli.ok /\ hc = -1 /\ tc > 0 /\ cli.st.code = tc) => MetadataReceived(cli.st.meta, m.tmeta)>>,
+     <<"C08.NoPartialEntry", ~cli.ok => \A n \in MetaNames(all) : MetaVals(cli.st.meta, n) \in {<<>>, MetaVals(all, n)}>> >>
 MockClauses(stim, cli) ==
   LET m == stim.mock  enc == MockEnc(m)  accept == SeqToSet(stim.client.accept)
       refusedEnc == enc # "" /\ enc \notin accept
@@ -141,7 +150,8 @@ MockClauses(stim, cli) ==
   IN << <<"C05.UnsupportedResponseEncodingIsUnimplemented", refusedEnc => (~cli.ok /\ cli.st.code = 12)>>,
         <<"C04.TrailersOnlyErrorIsReported", (~refusedEnc /\ hc > 0) => (~cli.ok /\ cli.st.code = hc)>>,
         <<"C05.FlagWithoutEncodingIsInternal", (~refusedEnc /\ hc = -1 /\ enc = "" /\ m.status = 200 /\ MockFlagged(m) /\ m.first_flagged) => (~cli.ok /\ cli.st.code = 13)>>,
-        <<"C04.TrailerStatusIsReported", (~refusedEnc /\ hc = -1 /\ m.status = 200 /\ MockFramesOK(m) /\ tc > 0) => (~cli.ok /\ cli.st.code = tc)>>,
+        \* (whatever the HTTP status: the mapping from the HTTP status is for responses in which no grpc-status is available)
+        <<"C04.TrailerStatusIsReported", (~refusedEnc /\ hc = -1 /\ MockFramesOK(m) /\ tc > 0) => (~cli.ok /\ cli.st.code = tc)>>,
         <<"C04.HttpStatusIsClassified", (~refusedEnc /\ hc = -1 /\ tc = -1 /\ m.status # 200 /\ MockBody(m) = <<>>) => (~cli.ok /\ cli.st.code = HttpToGrpc(m.status))>>,
         \* (a response with an OK grpc-status in its headers AND a status in trailers contradicts itself: the text is silent, either reading is accepted)
         <<"C02.SuccessNeedsOkStatus", cli.ok => (~refusedEnc /\ hc \in {-1, 0} /\ (hc = -1 => tc \in {-1, 0}))>>,
@@ -150,6 +160,7 @@ MockClauses(stim, cli) ==
                                              => cli.msgs = [i \in 1..Len(ParseFrames(MockBody(m)).frames) |-> ParseFrames(MockBody(m)).frames[i].payload]>>,
         <<"C02.OkTrailersAfterMessagesIsSuccess", (~refusedEnc /\ hc = -1 /\ m.status = 200 /\ tc = 0 /\ MockFramesOK(m)
                                                    /\ (stim.shape = "sstream" \/ Len(ParseFrames(MockBody(m)).frames) = 1)) => cli.ok>> >>
+     \o (IF "tmeta" \in DOMAIN m THEN MockMetaClauses(stim, cli, hc, tc) ELSE <<>>)
 
 (* ---- what the client API must yield (C02, first sentence; C08) *)
 StatusEquals(st, end) == st.some /\ st.code = end.code /\ st.msg = end.msg /\ st.details = end.details
